@@ -134,11 +134,11 @@ prop('C13', units=['fx'], level='proof',
 prop('C17_', units=[])
 del PROPS['C17_']
 
-prop('C18', units=['conv', 'qt', 'xlr', 'drv'], level='proof',
-     technique='Verus: all of FxTracker (implied rate, signed shares == cash amount, implicit conversion amount, pairing errors, unpaired row => Err) and impl Ord for BrokerTx == (settlement date, timestamp, tiebreak class, tiebreak, row); questrade::sheet_to_txs and its per-row handler (the immediately-invoked closure, as a function): one transaction per BUY / SELL / DIS / LIQ row in row order with that row\'s dates, absolute quantity, price, absolute commission, currency and account-derived affiliate (spec function `emitted`), nothing for the documented non-trade activities, and per row the exact FX side effect (USD dividend = its net amount; non-CAD trade = -/+ price x quantity - commission; conversion leg handed on with its net amount and currency), and the whole-sheet cash conservation: the signed share total of the emitted FX rows equals the net USD cash flow of the conversions, USD dividends and non-CAD trades of the sheet (loop invariant fx_bal == flow_sum); excel.rs (unit xlr): read_sheet_header builds the name -> index table of the first row with positions counted over all cells (header_ok), SheetReader::get / get_str / get_opt_dec / get_dec hand out the cell of the current row under the last header cell of that name (spec function `cell`), whatever the column order and whatever blank or non-text header cells there are; the CSV table written from the converted rows (txs_to_csv_table, unit drv) puts every value under its own column and reads back by column name (lemma_table_reads_back)',
+prop('C18', units=['conv', 'qt', 'xlr', 'drv', 'xc'], level='proof',
+     technique='Verus: all of FxTracker (implied rate, signed shares == cash amount, implicit conversion amount, pairing errors, unpaired row => Err) and impl Ord for BrokerTx == (settlement date, timestamp, tiebreak class, tiebreak, row); questrade::sheet_to_txs and its per-row handler (the immediately-invoked closure, as a function): one transaction per BUY / SELL / DIS / LIQ row in row order with that row\'s dates, absolute quantity, price, absolute commission, currency and account-derived affiliate (spec function `emitted`), nothing for the documented non-trade activities, and per row the exact FX side effect (USD dividend = its net amount; non-CAD trade = -/+ price x quantity - commission; conversion leg handed on with its net amount and currency), and the whole-sheet cash conservation: the signed share total of the emitted FX rows equals the net USD cash flow of the conversions, USD dividends and non-CAD trades of the sheet (loop invariant fx_bal == flow_sum); excel.rs (unit xlr): read_sheet_header builds the name -> index table of the first row with positions counted over all cells (header_ok), SheetReader::get / get_str / get_opt_dec / get_dec hand out the cell of the current row under the last header cell of that name (spec function `cell`), whatever the column order and whatever blank or non-text header cells there are; the CSV table written from the converted rows (txs_to_csv_table, unit drv) puts every value under its own column and reads back by column name (lemma_table_reads_back); tx_export_convert_impl::run_with_args and filter_and_verify_tx_accounts (unit xc): under every combination of --account, --security, --no-fx, --usd-exchange-rate and --no-sort the rows written are the converted rows that pass the filters (exactly the matching ones, in their order), with the given rate on USD rows only, sorted unless --no-sort, each turned into a CSV row field by field (stages_ok), and exactly one table -- the CSV table of those rows -- is handed to the writer',
      level_text='Deductive proof (Verus) for the FX-tracking and ordering layer of the Questrade converter and for the row loop of sheet_to_txs, for all sheets converted without complaint: which rows yield a transaction, with which fields, what each row does to the FX ledger, and that the FX rows add up to the sheet\'s net USD cash flow. What a cell contains, upper-casing, the account-type pattern, date parsing and the symbol alias table are uninterpreted functions of the text (shim/xl_stubs.rs). The header map and the cell access of excel.rs are verified in unit xlr on stand-ins for the office crate and for the std iterator adapters (each adapter = its strongest postcondition in terms of the closure contract); the SheetReader contract that unit qt assumes is derived there (qt_contract_get_str / qt_contract_get_dec). Witness D7 (blank header cell) stays as a run-time replay.',
      level_note=BK_NOTE + ' String::cmp is an uninterpreted total order; the ".FX" symbol concatenation is a hole. Unit qt: rewrites R29 (the row closure becomes fn row_body, captured variables as parameters, `row_num` dereferenced), R30 (match on string literals / String == literal -> if-chain over a stand-in string equality: Verus gives literal patterns no meaning), holes for the two literal action tables (with their contents), the alias look-up, memo concatenation, the clone of the FX rows; Range, Path are stand-ins; in unit qt SheetReader is a stand-in whose contract is proved in unit xlr for a current row at least as wide as the header (rows of an office::Range all have its width: assumed of the crate). Unit xlr: rewrites R31 (closure with a tuple-pattern parameter -> |__p| { let (a, b) = __p; .. }), R32 (into_iter / HashMap::from_iter -> stand-in constructors of shim/office_stubs.rs, the adapter chain keeps its text), R26 (to_string / Debug text of a cell value = uninterpreted function of the value); String keys looked up by &str: two axioms (shim/office_stubs.rs strkey); Decimal::from_str / from_f64 are functions of their argument, from_i64 is exact.',
-     not_covered=['the office crate itself (xlsx decoding, that all rows of a Range have the same width)', 'tx_export_convert_impl option filters (--account, --security, --no-fx, --no-sort): regex / iterator code'],
+     not_covered=['the office crate itself (xlsx decoding, that all rows of a Range have the same width)', 'command-line parsing (clap), xlsx reading, what a regular expression matches (uninterpreted), the writers themselves (TextWriter / CsvWriter: stand-in with the AcbWriter ghost log)'],
      witnesses=['D7', 'D17'])
 
 prop('C20', units=['pdf', 'fmv'], level='proof',
@@ -160,3 +160,4 @@ ALL_UNITS.append('fmv')
 ALL_UNITS.append('smd')
 ALL_UNITS.append('qt')
 ALL_UNITS.append('xlr')
+ALL_UNITS.append('xc')
